@@ -81,7 +81,11 @@ class LocalDateTime {
 
         // Avoid % operator, because it's slow on an 8-bit process and because
         // epochSeconds could be negative.
-        acetime_t seconds = epochSeconds - 86400 * days;
+        // Use unsigned arithmetic: 86400 * days does not fit in a signed
+        // 32-bit integer for the first (partial) day of the acetime_t range,
+        // but the difference is always in [0, 86399].
+        acetime_t seconds = (acetime_t) ((uint32_t) epochSeconds
+            - (uint32_t) 86400 * (uint32_t) days);
         ld = LocalDate::forEpochDays(days);
         lt = LocalTime::forSeconds(seconds);
       }
@@ -248,6 +252,9 @@ class LocalDateTime {
 
       acetime_t days = mLocalDate.toEpochDays();
       acetime_t seconds = mLocalTime.toSeconds();
+      // Avoid overflowing 'days * 86400' on the first (partial) day of the
+      // acetime_t range, where the sum is still representable.
+      if (days < 0) return (days + 1) * 86400 + (seconds - 86400);
       return days * 86400 + seconds;
     }
 
